@@ -13,6 +13,11 @@ pub const HDR_VERSION: u8 = 0b001;
 /// Indicates that this is an SMBus command code
 pub(crate) const MCTP_SMBUS_COMMAND_CODE: u8 = 0x0F;
 
+/// The largest message body (message type byte, headers and data) that fits
+/// in one SMBus block write. The one byte SMBus byte count also covers the
+/// source slave address and the four byte MCTP transport header.
+pub(crate) const MAX_MESSAGE_BODY_LEN: usize = 255 - 5;
+
 bitfield! {
     /// The MCTP SMBus/I2C Packet Header
     pub struct MCTPSMBusHeader([u8]);
@@ -82,7 +87,7 @@ impl<'a, 'b> MCTPSMBusPacket<'a, 'b> {
     ///
     /// Currently this just sets the total byte count.
     fn finalise(&mut self) {
-        self.smbus_header.set_byte_count(self.len() as u8 - 4);
+        self.smbus_header.set_byte_count((self.len() - 4) as u8);
     }
 }
 
